@@ -951,4 +951,47 @@ theorem C29_others_unchanged {s s' : Lsm} {ps : List Bytes} {flushIds : List Nat
           unfold Lsm.specGet
           rw [allEntries_flushAll h0]
 
+/-! ## sanity: the theorem applies to the sample run of `C29State.lean` -/
+
+section Sanity
+open C29Sample
+
+theorem sample_stepCuts :
+    StepCuts sF (groupCd sF 2 [[2]]
+      [{ ents := [mk [2] 1, mk [2, 0] 1], id := 2 }, { ents := [mk [2, 1] 1, mk [3] 1], id := 3 }] st1)
+      st1.discardTs 1 st1.now := by
+  intro new0 h
+  have hout : (compactOutput sF (groupCd sF 2 [[2]]
+      [{ ents := [mk [2] 1, mk [2, 0] 1], id := 2 }, { ents := [mk [2, 1] 1, mk [3] 1], id := 3 }] st1)
+      st1.discardTs 1 st1.now).1 = [mk [3] 1] := by
+    simp only [compactOutput, mergeAll_eq_F]
+    decide
+  rw [hout] at h
+  have : new0 = [{ ents := [mk [3] 1] }] := by
+    simp [splitSizes, groupCd, st1] at h
+    exact h.symm
+  subst this
+  simp [withIds, groupCd, st1, CutsAtKeyChange]
+
+theorem sample_cuts : DropCuts s0 [[2]] [20, 21] 1 [st1, st2] := by
+  unfold DropCuts
+  rw [e1, e2]
+  have hg : (dropGroups (sF.levels.getD 2 []) [[2]]).map (fun g => pickIdx (sF.levels.getD 2 []) g) =
+      [[{ ents := [mk [2] 1, mk [2, 0] 1], id := 2 }, { ents := [mk [2, 1] 1, mk [3] 1], id := 3 }]] := by
+    decide
+  have hg1 : (dropGroups (sA.levels.getD 1 []) [[2]]).map (fun g => pickIdx (sA.levels.getD 1 []) g) = [] := by
+    decide
+  simp only [levelsCuts, e3, e4, levelCuts, hg, hg1, groupsCuts, and_true]
+  refine ⟨sample_stepCuts, ?_⟩
+  split <;> trivial
+
+-- key `[1]` (no dropped prefix), read at `ts = 3 ≥ discardTs = 0`, clock 5
+example : visible 5 (sEnd.get [1] 3) = visible 5 (s0.get [1] 3) :=
+  C29_others_unchanged (by decide) (by decide) (by decide) (by decide) (by decide)
+    (by intro j h1 h2; have : j = 1 := by omega
+        subst this; rfl)
+    sample_cuts C29_sample_run (by decide) (by decide)
+
+end Sanity
+
 end Badger
